@@ -90,6 +90,7 @@ func (propC04) Gen(r *Rng, idx int, tier string) *Scenario {
 	case 2:
 		sc.Decl.UnknownHandler = "fail"
 	}
+	sc.Decl.Reenter = hr.Chance(1, 4)
 	sc.World = WorldSpec{Cols: []int{80, 80, 30, 200, -1, 0, 12}[hr.Intn(7)], Now: 1700000000, Env: map[string]BStr{}}
 	p := sc.C04
 	mr := r.Fork("mode")
